@@ -520,7 +520,7 @@ pub fn run(e: &Engine) {
     e.campaign(
         "cleanup-schedules",
         "initial store: chain of 0-8 versions with an old prefix and a recent suffix, snapshots at generated positions, orphan objects (loser siblings, a candidate child of latest, unrelated garbage), one replica synced at every initial version; 1-3 clients with scripts of add-version (optionally followed by cleanup), add-snapshot, cleanup (optionally failing at its k-th request), get-child; generated schedule at single-request granularity, list page size 1-3; retention rules evaluated on the final store, walks from every retained snapshot, fresh and old replicas must sync to the latest state; non-trivial = a cleanup's requests overlapped another client's add-version, add-snapshot or cleanup",
-        e.tier.pick(8000, 600_000),
+        e.tier.pick(8000, 300_000),
         strategy,
         render,
         check_case,
